@@ -138,7 +138,7 @@ def t_contradiction(F, R):
     for p in ("transformers::bounds::BoundsAnalyzer::analyze", "transformers::bounds::BoundsAnalyzer::analyze_with_options", "transformers::bounds::BoundsAnalyzer::propagate_affine_constraints", "transformers::bounds::BoundsAnalyzer::apply_to_domain"):
         f = F.fn(p)
         if f is None:
-            R.ob("T-CONTRADICTION", "no-result:" + p.rsplit("::", 1)[-1], False, "", "function not found")
+            R.ob("T-CONTRADICTION", "no-result:" + p.rsplit("::", 1)[-1], False, "", "function not found", undecided=True)
             continue
         R.fn(p)
         out = F.tyi(f.get("output")) or ""
@@ -162,7 +162,7 @@ def t_contradiction(F, R):
             row = emits and [sexp(a) for a in emits[0]["args"][:3]]
             ok = bool(emits) and row[0].endswith("Number(0.0)") and row[1].endswith("Comparison::Equal") and row[2].endswith("Number(1.0)") and any(x.get("k") == "Continue" for x in walk(arm["body"])) and not any(x.get("k") == "Ret" for x in walk(arm["body"]))
             detail = "arm body %s" % t[:160]
-        R.ob("T-CONTRADICTION", "linearize:contradiction-arm", ok, F.loc(f, arm["body"]) if arm else F.loc(f), "a constraint normalised to a contradiction must be emitted as the row 0 = 1 and processing must continue: " + detail)
+        R.ob("T-CONTRADICTION", "linearize:contradiction-arm", ok, F.loc(f, arm["body"]) if arm else F.loc(f), "a constraint normalised to a contradiction must be emitted as the row 0 = 1 and processing must continue: " + detail, undecided=(arm is None) or not any(x.get("k") == "Ret" for x in walk(arm["body"])))
     g = F.fn("transformers::linearizer::lower_logic_assertion")
     if g is not None:
         R.fn(g["path"])
@@ -171,12 +171,12 @@ def t_contradiction(F, R):
         if ifs:
             emits = [x for x in walk(ifs[0]["then"]) if x.get("k") == "MCall" and x["name"] == "emit_constraint"]
             ok = bool(emits) and sexp(emits[0]["args"][0]).endswith("Number(0.0)") and sexp(emits[0]["args"][2]).endswith("Number(1.0)") and "Err(" not in sexp(ifs[0]["then"]).replace("?", "")
-        R.ob("T-CONTRADICTION", "lower_logic_assertion:constant-false", ok, F.loc(g), "asserting a constant of the wrong truth value must emit 0 = 1, not fail")
+        R.ob("T-CONTRADICTION", "lower_logic_assertion:constant-false", ok, F.loc(g), "asserting a constant of the wrong truth value must emit 0 = 1, not fail", undecided=not ifs or "Err(" not in sexp(ifs[0]["then"]).replace("?", ""))
     h = F.fn("transformers::bounds::BoundsAnalyzer::apply_to_domain")
     if h is not None:
         ifs = [i for i in walk(h["body"]) if i.get("k") == "If" and sexp(strip(i["cond"])) == "(lower > upper)"]
         ok = bool(ifs) and any(x.get("k") == "Continue" for x in walk(ifs[0]["then"]))
-        R.ob("T-CONTRADICTION", "apply_to_domain:empty-integer-range", ok, F.loc(h), "an empty rounded integer range keeps the declared domain (the rows report infeasibility at solve time)")
+        R.ob("T-CONTRADICTION", "apply_to_domain:empty-integer-range", ok, F.loc(h), "an empty rounded integer range keeps the declared domain (the rows report infeasibility at solve time)", undecided=True)
 
 
 def check(F, R):
